@@ -194,6 +194,40 @@ func c05Body(c *sim.Ctx, failAt int) int {
 	nops := 1 + cfg.Choose(maxOps)
 	st := c.Tape.S("ops")
 	afterFail := 0
+	if cfg.Chance(1, 15) {
+		// doubling run: every request is as large as everything written so far, so the buffer
+		// grows at every step (many outgrown buffers within one flush cycle), then early regions
+		// are filled late
+		k := 5 + cfg.Choose(10)
+		c.Count("cfg.doubling_run")
+		for i := 0; i < k && !m.failed && m.unflushed < 3<<20; i++ {
+			n := m.unflushed + st.Choose(2)
+			if n == 0 {
+				n = 1
+			}
+			if st.Chance(1, 4) {
+				m.WriteBinary(n, false)
+			} else {
+				m.Malloc(n, st.Pick(1, 1, 3))
+			}
+		}
+		for i := 0; i < 4; i++ {
+			m.LateFill(st)
+		}
+	}
+	if cfg.Chance(1, 150) {
+		// megabyte-scale cycle
+		c.Count("cfg.megabyte_cycle")
+		for i := 0; i < 2+cfg.Choose(4) && !m.failed; i++ {
+			n := 300000 + st.Choose(900000)
+			if st.Chance(1, 2) {
+				m.WriteBinary(n, false)
+			} else {
+				m.Malloc(n, st.Pick(1, 1, 2))
+			}
+		}
+		m.LateFill(st)
+	}
 	for i := 0; i < nops; i++ {
 		if m.target != nil && m.epoch > 0 {
 			break
